@@ -36,7 +36,7 @@ def _case(draw, max_n):
         "post": draw(ops.steps(OPS, n, 0, 4)),
         "query_sps": draw(st.lists(gen.spaces_of(n, p_fixed=0.5), max_size=3)),
         "final_build": draw(st.booleans()),
-        "other": draw(st.sampled_from(("same", "same", "mutated"))),
+        "other": draw(st.sampled_from(("same", "same", "mutated", "reordered"))),
         "mut": draw(st.tuples(st.integers(0, 50), st.integers(0, 50))),
     }
     return c
@@ -213,14 +213,30 @@ def run_case(case) -> Result:
             if len({dep[p] for p in sd.dag.predecessors(v)}) >= 2:
                 multi_depth_parent = True
         # second diagram
-        net2 = net if case["other"] == "same" else net_of({"net": _mutate(case["net"], case["mut"])})
-        h2 = ops.History(net2)
+        if case["other"] == "reordered" and any(t is None for t in net.tables):
+            case = {**case, "other": "same"}  # (the table transformer does not handle update-less inputs)
+        if case["other"] == "reordered":
+            # the same network declared in reversed variable order (names follow their variables)
+            from .c17 import transform
+
+            n_ = net.n
+            net2, _pos = transform(case["net"], net.names, list(reversed(range(n_))), [])
+            h2 = ops.History(net2, via="api")
+        else:
+            net2 = net if case["other"] == "same" else net_of({"net": _mutate(case["net"], case["mut"])})
+            h2 = ops.History(net2)
         for s in case["post"]:
             out = h2.apply(s)
             if out.kind != "ok":
                 break
         na, ea = _sets(sd, net)
         nb, eb = _sets(h2.sd, net2)
+        if case["other"] == "reordered":
+            # express B's spaces in A's variable order
+            idx = [net2.names.index(nm) for nm in net.names]
+            cv = lambda sp: tuple(sp[k] for k in idx)  # noqa
+            nb = {cv(x) for x in nb}
+            eb = {(cv(x), cv(y)) for x, y in eb}
         for (x, y, nx_, ex, ny, ey, tag) in ((sd, h2.sd, na, ea, nb, eb, "A<=B"), (h2.sd, sd, nb, eb, na, ea, "B<=A")):
             exp = nx_ <= ny and ex <= ey
             got = call(x.is_subgraph, y)
